@@ -284,3 +284,44 @@ Example good_example :
   good_graph [([1; 113; 18; 1; 170]%N, DMap [([118%N], DInt 7)])] = true /\
   keys_ok (DMap [([97%N], DLink [1; 113; 18; 1; 170]%N); ([98%N], DList [DInt 1; DString [104%N]])]) = true.
 Proof. split; reflexivity. Qed.
+
+(* ------------------------------------------------------------------ Focus from a Progress that carries a path *)
+Lemma deref_last_deref g f : forall v l,
+  match deref g f v with
+  | Ok x => exists l', deref_last g f v l = Ok (x, l')
+  | Err e => deref_last g f v l = Err e
+  end.
+Proof.
+  induction f as [|f IH]; intros v l; destruct v; cbn; eauto.
+  destruct (assoc c g) as [b|]; [apply IH|reflexivity].
+Qed.
+
+Lemma get_last_get g p : forall n done lb,
+  match get g n p with
+  | Ok x => exists lb', get_last g n done p lb = Ok (x, lb')
+  | Err e => get_last g n done p lb = Err e
+  end.
+Proof.
+  induction p as [|sg r IH]; intros n done lb; cbn [get get_last]; [eauto|].
+  unfold step_deref. destruct (step n sg) as [v|e]; cbn [bind]; [|reflexivity].
+  pose proof (deref_last_deref g (S (length g)) v None) as H.
+  destruct (deref g (S (length g)) v) as [x|e]; [|rewrite H; reflexivity].
+  destruct H as [l' H]. rewrite H. cbn [bind fst snd]. apply IH.
+Qed.
+
+(* the path a nested focus reports is the carried path followed by the focused one, and it reaches what Get reaches *)
+Theorem focus_from_spec g pre n q v P lb :
+  focus_from g pre n q = Ok (v, P, lb) -> P = pre ++ q /\ get g n q = Ok v.
+Proof.
+  unfold focus_from. pose proof (get_last_get g q n [] None) as H.
+  destruct (get g n q) as [x|e].
+  - destruct H as [lb' H]. rewrite H. cbn. intros E; inversion E; subst. auto.
+  - rewrite H. discriminate.
+Qed.
+Theorem focus_from_fails g pre n q e : focus_from g pre n q = Err e <-> get g n q = Err e.
+Proof.
+  unfold focus_from. pose proof (get_last_get g q n [] None) as H.
+  destruct (get g n q) as [x|e0].
+  - destruct H as [lb' H]. rewrite H. cbn. split; discriminate.
+  - rewrite H. cbn. split; intros E; inversion E; reflexivity.
+Qed.
